@@ -11,10 +11,30 @@ import common
 import gen
 
 
-def run_logger(binary, workdir, data, chunks, pause_ms):
-    """Run the rtcmlogger binary: feed stdin in chunks, capture stdout, read the day's record file after exit."""
+def run_logger(binary, workdir, data, chunks, pause_ms, slow_disk=None):
+    """Run the rtcmlogger binary: feed stdin in chunks, capture stdout, read the day's record file after exit.
+    slow_disk = (record file name, stall seconds): the day's record file is a named pipe whose reader (this
+    harness, playing a slow disk) stalls before it takes anything, so the recorder goroutine blocks in Write while
+    the copy loop runs ahead."""
+    import threading
     shutil.rmtree(workdir, ignore_errors=True)
     os.makedirs(workdir)
+    recbuf = bytearray()
+    disk = None
+    if slow_disk:
+        fifo = os.path.join(workdir, slow_disk[0])
+        os.mkfifo(fifo)
+
+        def disk_reader():
+            with open(fifo, "rb") as f:
+                time.sleep(slow_disk[1])
+                while True:
+                    b = f.read(65536)
+                    if not b:
+                        break
+                    recbuf.extend(b)
+        disk = threading.Thread(target=disk_reader, daemon=True)
+        disk.start()
     cfg = os.path.join(workdir, "cfg.json")
     with open(cfg, "w") as f:
         json.dump({"log_events": False, "message_log_directory": workdir, "event_log_directory": workdir}, f)
@@ -27,7 +47,6 @@ def run_logger(binary, workdir, data, chunks, pause_ms):
             if not b:
                 break
             out.extend(b)
-    import threading
     t = threading.Thread(target=reader)
     t.start()
     pos, i = 0, 0
@@ -50,8 +69,12 @@ def run_logger(binary, workdir, data, chunks, pause_ms):
         rc = -9
     t.join(timeout=10)
     rec = b""
-    for fn in sorted(glob.glob(os.path.join(workdir, "rtcmlogger.*.rtcm"))):
-        rec += open(fn, "rb").read()
+    if slow_disk:
+        disk.join(timeout=30)
+        rec = bytes(recbuf)
+    else:
+        for fn in sorted(glob.glob(os.path.join(workdir, "rtcmlogger.*.rtcm"))):
+            rec += open(fn, "rb").read()
     shutil.rmtree(workdir, ignore_errors=True)
     return rc, bytes(out), rec
 
@@ -59,7 +82,10 @@ def run_logger(binary, workdir, data, chunks, pause_ms):
 def run(res, args):
     res.rule = ("the built rtcmlogger binary: stdin fed through a pipe (empty, 1 B, 8095, 8096, 8097, 20 000, 100 000 random bytes, "
                 "RTCM streams) with chunk sizes 1..65536 and pauses 0/1/5 ms, stdout captured, the day's record file read after the "
-                "process has exited; every case repeated to sample the exit race; non-trivial = at least 2 blocks of input")
+                "process has exited; every case repeated to sample the exit race; plus the repository's start() in-process (go test "
+                "-overlay; newLogWriter replaced) with inputs up to 1.2 MB and a record writer that stalls (a slow disk: the "
+                "recorder blocks in Write while the copy loop runs ahead); "
+                "non-trivial = at least 2 blocks of input")
     res.assumptions = ["runs are kept away from local midnight (the daily writer's rotation is out of scope)",
                        "the interleaving of the copy loop and the recorder at end of input is sampled by repetition, not enumerated"]
     res.trusted = ["the binary is built from /repo's working tree with go build"]
@@ -90,7 +116,6 @@ def run(res, args):
         jobs.append((s, [rng.choice([1, 64, 8096, 65536])] if len(s) < 3000 else [8096], 0, "rtcm"))
     wd = os.path.join(common.WORK, "C16")
     os.makedirs(wd, exist_ok=True)
-
     def one(ij):
         i, (data, chunks, pause, tag) = ij
         return run_logger(binary, os.path.join(wd, "run%d" % i), data, chunks, pause)
@@ -113,5 +138,42 @@ def run(res, args):
             res.nontrivial.add((tag, tuple(chunks), pause, res.evaluations))
         if res.evaluations % 12 == 1:
             res.sample(dict(case, stdout_bytes=len(out), record_bytes=len(rec)))
+    # the same program in-process with a record writer that stalls (a slow disk): the recorder goroutine blocks in
+    # Write while the copy loop runs ahead; os.Stdin/os.Stdout are pipes; start() is the repository's
+    okt, outt, tbin = common.build_app_test("rtcmlogger", rewrite=("main.go", "func newLogWriter(", "func newLogWriterRepo("))
+    if not okt:
+        res.corr_ok = False
+        res.corr_notes.append("building the rtcmlogger overlay test failed (slow-disk schedules not run): " + (outt or "")[-2500:])
+        res.traces = res.evaluations
+        return res.finish()
+    cases = []
+    for k in range(10 if res.tier == "quick" else 80):
+        size = rng.choice([0, 1, 8096, 20000, 100000, 400000, 700000, 1200000])
+        chunk = rng.choice([1000, 8096, 65536, 200000])
+        stall_call = rng.choice([0, 1, 1, 2, 5])
+        stall_ms = rng.choice([50, 300, 600]) if stall_call else 0
+        each_us = rng.choice([0, 0, 50, 500]) if size <= 400000 else 0
+        cases.append("logger %d %d %d %d %d %d" % (size, chunk, stall_call, stall_ms, each_us, rng.getrandbits(31)))
+    cases.append("logger 1200000 65536 1 600 0 7")
+    cases.append("logger 700000 8096 2 400 0 8")
+    obs, e = common.run_app_test(tbin, cases, "C16", shards=4)
+    if e or len(obs) != len(cases):
+        res.corr_ok = False
+        res.corr_notes.append("rtcmlogger overlay run failed: %s" % e)
+    else:
+        for c, o in zip(cases, obs):
+            res.evaluations += 1
+            res.count("in-process, stalling record writer")
+            if o == "hang":
+                res.add_violation(dict(case=c), "start() did not return within 60 s of the end of input (recording delays the program indefinitely)")
+                continue
+            parts = dict(x.split("=", 1) for x in o.split(" "))
+            if parts["out"] != "same":
+                res.add_violation(dict(case=c, stdout_len_and_first_difference=parts["out"]), "standard output differs from standard input (stalling record writer)")
+            if parts["rec"] != "same":
+                res.add_violation(dict(case=c, record_len_and_first_difference=parts["rec"]),
+                                  "the record is not a complete copy of the input when start() returns (stalling record writer)")
+            if int(c.split()[1]) > 8096:
+                res.nontrivial.add(c)
     res.traces = res.evaluations
     return res.finish()
